@@ -51,6 +51,9 @@ type Reader struct {
 	C        *explore.Chooser
 	MaxZero  int // zero-length reads allowed per execution
 	NoShort  bool
+	// Coarse limits the short counts offered at a Read call to
+	// {1, half, all but one}: for frames too large to try every count
+	Coarse bool
 	NoEndMix bool // never deliver data together with the end error
 
 	Off    int
@@ -115,6 +118,11 @@ func (r *Reader) Read(p []byte) (int, error) {
 	if r.NoShort {
 		nShort = 0
 	}
+	var coarse []int
+	if r.Coarse && m > 4 {
+		coarse = []int{1, m / 2, m - 1}
+		nShort = len(coarse)
+	}
 	nZero := 0
 	if r.zeros < r.MaxZero {
 		nZero = 1
@@ -131,6 +139,9 @@ func (r *Reader) Read(p []byte) (int, error) {
 		return r.note(len(p), m, nil)
 	case ch <= nShort:
 		k := ch
+		if coarse != nil {
+			k = coarse[ch-1]
+		}
 		copy(p, r.Data[r.Off:r.Off+k])
 		r.Off += k
 		return r.note(len(p), k, nil)
